@@ -76,7 +76,19 @@ type Run struct {
 	Extra        map[string]any // additional coverage keys (level-specific)
 }
 
+// NoJobWatch: set by checks whose jobs supervise child processes with their own (logical) budgets (C08).
+var NoJobWatch bool
+
+// currentRun: the run of this process (there is one), for the job registration of Parallel.
+var currentRun *Run
+
 func NewRun(prop, tier string, seed int64) *Run {
+	r := newRun(prop, tier, seed)
+	currentRun = r
+	return r
+}
+
+func newRun(prop, tier string, seed int64) *Run {
 	return &Run{Prop: prop, Tier: tier, Seed: seed, Level: "exploration", start: time.Now(),
 		distinct: map[uint64]struct{}{}, counters: map[string]int64{}, violClasses: map[string]string{},
 		known: map[string]int64{}, knownText: map[string]string{}, maxSamples: 6}
@@ -544,7 +556,15 @@ func Parallel(n int, f func(idx int)) {
 		go func() {
 			defer wg.Done()
 			for i := range ch {
-				f(i)
+				// every job is known to the watchdog, whether or not the check wraps its cases in Guard: a job that
+				// never comes back ends the run with a violation naming the job instead of hanging the check
+				if cur := currentRun; cur != nil && !NoJobWatch {
+					id := cur.enterCase(&Case{Kind: "parallel-job", Extra: map[string]string{"job": fmt.Sprint(i), "note": "the workload is a pure function of VERIF_SEED and the job index"}})
+					f(i)
+					cur.leaveCase(id)
+				} else {
+					f(i)
+				}
 			}
 		}()
 	}
